@@ -22,7 +22,7 @@ class C36(Check):
     design_ref = "§6 C36"
     rule = ("a TcpServerStack and 1-2 TcpClientStacks exchanging 0-6 uniquely tagged packets of 1-40 bytes per direction and "
             "peer, pipe capacity 1-64 bytes, a seeded schedule of client-service / server-service / queue / partial-delivery "
-            "steps, then a fair tail; non-trivial = a partial send happened or packets flowed both ways; distinct = digest "
+            "steps, then a fair tail; now and then a zero-length packet, the same packet queued twice or broadcast, a peer leaving, an orderly close after the last packet; non-trivial = a partial send happened or packets flowed both ways; distinct = digest "
             "of per-step (bytes received per endpoint)")
     components = {"real": ["ioflo.aio.proto.stacking.TcpServerStack", "ioflo.aio.proto.stacking.TcpClientStack", "ioflo.aio.proto.packeting.Packet (receive side)",
                            "ioflo.aio.tcp Server/Incomer/Client"],
